@@ -912,11 +912,7 @@ def _has_nan(d):
 
 def region(case, impl, model):
     """the recorded finding region this case lies in (None when in none)"""
-    c = case['c']
-    k = c['k']
-    if k in ('min', 'max') and (_has_nan(c['v']) or _has_nan(c['bound'])):
-        return 'minMaxNaN'
-    return None
+    return None          # (minMaxNaN was the only one; repaired by 1eb0dcf - NaN cases are judged like every other case)
 
 
 def judge(case, impl, model):
